@@ -134,7 +134,7 @@ def gen_cv_solve(rng, knobs, neq=NEQ):
     dt = gen_dt(rng)
     s = {
         "mode": 1 if rng.random() < knobs["p_pywrap"] else 0,
-        "reset": 1 if rng.random() < 0.3 else 0,
+        "reset": rng.choices([0, 1, 2], weights=[6, 3, 1])[0],
         "mxsteps": rng.choice([1, 50, 500, 10000]),
         "dt": dt,
         "y0c": [rng.choice(Y0_MULT) for _ in range(neq)],
@@ -200,7 +200,7 @@ def gen_ode_solve(rng, knobs, neq=NEQ):
         throw_at = rng.randrange(n)
     return {
         "mode": 1 if rng.random() < knobs["p_pywrap"] else 0,
-        "reset": 1 if rng.random() < 0.3 else 0,
+        "reset": rng.choices([0, 1, 2], weights=[6, 3, 1])[0],
         "mxsteps": mx,
         "dt": gen_dt(rng),
         "y0c": [rng.choice(Y0_MULT) for _ in range(neq)],
@@ -234,7 +234,9 @@ def gen_run(seed, index):
         if nsys > 1:
             for s in solves:
                 s["y0c"] = [rng.choice(Y0_MULT) for _ in range(neq * nsys)]
-    return {"variant": variant, "nsys": nsys, "solves": solves, "origin": ["seeded", seed, index]}
+    # overlapping lifetimes: the previous object of this driver process stays initialised during this run
+    return {"variant": variant, "nsys": nsys, "solves": solves, "origin": ["seeded", seed, index],
+            "overlap": 1 if rng.random() < 0.2 else 0}
 
 
 def ladder_stratum():
@@ -336,7 +338,7 @@ def hexf(x):
 
 
 def encode_run(rid, run):
-    lines = [f"run {rid} {len(run['solves'])} {run['nsys']}"]
+    lines = [f"run {rid} {len(run['solves'])} {run['nsys']} {1 if run.get('overlap') else 0}"]
     for s in run["solves"]:
         y0 = [c * s["dt"] for c in s["y0c"]]
         head = f"solve {s['mode']} {s['reset']} {s['mxsteps']} {hexf(s['dt'])} {len(y0)} " + " ".join(hexf(v) for v in y0)
